@@ -170,6 +170,10 @@ def validate(module, cfg, cwd, trace_path, nparts=16, env=None, heap="3g", timeo
     _last_validation.clear()
     _last_validation.update(module=module, cfg=cfg, cfg_text=open(os.path.join(cwd, cfg)).read(),
                             env=dict(env or {}), heap=heap)
+    # description of this validation next to the log: lets tools/binding_selftest.py (and a later
+    # replay) run the same trace module on a modified copy of the log
+    with open(trace_path + ".validation.json", "w") as f:
+        json.dump(dict(_last_validation, cwd=cwd, boundary=boundary), f)
     t = time.time()
     results = []
 
